@@ -177,7 +177,8 @@ def clobber_signature(c):
     op = c.get("text", "").split(" ")[0]
     if c.get("input_index") == 0 and op in DEVICE_FIRST_INPUT:
         # the clobbered operand is the device / reference-id operand of a device instruction
-        return "C04:clobber:device-id-capture"
+        return ("C04:clobber:device-id-capture:" + ("in-function" if c.get("reader_scope") else "module-level")
+                + (":stack-object" if op in ("get", "put", "getd", "putd", "clr", "clrd") else ":device-object"))
     rs, ws = c.get("reader_scope") or "", c.get("writer_scope") or ""
     rr, wr = c.get("reader_region") or "", c.get("writer_region") or ""
     if rs == ws:
